@@ -21,6 +21,7 @@ func checkC20(p *Prog, r *Report) {
 	ruleAsmPlane(p, r)
 	ruleOffs(p, r)
 	ruleOffsChroma(p, r)
+	ruleTblFill(p, r)
 	ruleOrigin(p, r, "C20")
 	if af, err := parseAsm(asmPath(p)); err != nil {
 		r.Undecided("ASMCONST", "asm_x86.s", "-", "cannot read the assembly file: "+err.Error())
